@@ -36,7 +36,7 @@ ATTR_TEXTS = [
 def gen(tier, rng, harness=None):
     n = 60 if tier == "quick" else 2500
     lines = []
-    for t in modprops.corpus_texts() + ALIAS_TEXTS + ATTR_TEXTS:
+    for t in modprops.corpus_texts() + ALIAS_TEXTS + ATTR_TEXTS + [t for _, t, _ in catalog.REPEATS]:
         lines.append("!mod.det - %s" % hx(t))
     # earlier parse/print activity must not matter: every module against polluters drawn from the catalogue (incl. named non-struct types),
     # the corpus and other generated modules
